@@ -171,6 +171,7 @@ type vchan struct {
 	cap    int
 	closed bool
 	elem   types.Type
+	recvWaiting int // receivers announced by the harness (vExpectRecv): lets a send on an unbuffered channel proceed
 }
 
 func chanSend(ex *Exec, ch *vchan, v value) {
@@ -181,7 +182,10 @@ func chanSend(ex *Exec, ch *vchan, v value) {
 		panic(targetPanic{iface{t: types.Typ[types.String], v: "send on closed channel"}})
 	}
 	if len(ch.buf) >= ch.cap {
-		ex.abort(AbortBlocked, "send on full channel (cap %d)", ch.cap)
+		if ch.recvWaiting == 0 {
+			ex.abort(AbortBlocked, "send on full channel (cap %d)", ch.cap)
+		}
+		ch.recvWaiting--
 	}
 	ch.buf = append(ch.buf, v)
 }
@@ -239,7 +243,26 @@ func doSelect(fr *frame, instr *ssa.Select) value {
 				ready = append(ready, i)
 			}
 		} else {
-			if ch.closed || len(ch.buf) < ch.cap {
+			if ch.closed || len(ch.buf) < ch.cap || ch.recvWaiting > 0 {
+				ready = append(ready, i)
+			}
+		}
+	}
+	if len(ready) == 0 && instr.Blocking && ex.idleHook != nil && !ex.inHook {
+		// nothing can proceed: let the harness's idle hook play the other goroutines / the environment, then look again
+		ex.inHook = true
+		call(ex.interp, nil, 0, ex.idleHook, nil)
+		ex.inHook = false
+		for i, st := range instr.States {
+			ch := fr.get(st.Chan).(*vchan)
+			if ch == nil {
+				continue
+			}
+			if st.Dir == types.RecvOnly {
+				if len(ch.buf) > 0 || ch.closed {
+					ready = append(ready, i)
+				}
+			} else if ch.closed || len(ch.buf) < ch.cap || ch.recvWaiting > 0 {
 				ready = append(ready, i)
 			}
 		}
